@@ -227,12 +227,12 @@ func (s *Scanner) AddSignature(sig *detection.Signature) error {
 	// An ID that is already stored is updated in place: appending a second record would leave
 	// the superseded version in the list that every scan walks.
 	if idx, ok := s.sigMap[sig.ID]; ok && idx >= 0 && idx < len(s.db.Signatures) && s.db.Signatures[idx].ID == sig.ID {
-		s.db.Signatures[idx] = *sig
+		s.db.Signatures[idx] = *s.deepCopySignature(sig)
 		return nil
 	}
 
-	// Append copies the struct value.
-	s.db.Signatures = append(s.db.Signatures, *sig)
+	// Append copies the struct value (and the slices it refers to: the caller keeps its own).
+	s.db.Signatures = append(s.db.Signatures, *s.deepCopySignature(sig))
 	s.sigMap[sig.ID] = len(s.db.Signatures) - 1
 
 	return nil
@@ -267,10 +267,10 @@ func (s *Scanner) AddSignatures(sigs []detection.Signature) error {
 			s.sigMap = make(map[string]int)
 		}
 		if idx, ok := s.sigMap[sig.ID]; ok && idx >= 0 && idx < len(s.db.Signatures) && s.db.Signatures[idx].ID == sig.ID {
-			s.db.Signatures[idx] = *sig
+			s.db.Signatures[idx] = *s.deepCopySignature(sig)
 			continue
 		}
-		s.db.Signatures = append(s.db.Signatures, *sig)
+		s.db.Signatures = append(s.db.Signatures, *s.deepCopySignature(sig))
 		s.sigMap[sig.ID] = len(s.db.Signatures) - 1
 	}
 	return nil
@@ -360,6 +360,22 @@ func (s *Scanner) GetDatabase() *detection.SignatureDatabase {
 func (s *Scanner) deepCopySignature(src *detection.Signature) *detection.Signature {
 	dst := *src
 	// NOTE: If reference types are added to Signature, copy them here.
+	// The struct does hold reference types: without these copies a caller that edits the
+	// slices of a returned signature rewrites the stored one, with no store operation and no lock.
+	cp := func(in []string) []string {
+		if in == nil {
+			return nil
+		}
+		return append(make([]string, 0, len(in)), in...)
+	}
+	dst.IdentifyingFeatures.RequiredCalls = cp(src.IdentifyingFeatures.RequiredCalls)
+	dst.IdentifyingFeatures.OptionalCalls = cp(src.IdentifyingFeatures.OptionalCalls)
+	dst.IdentifyingFeatures.StringPatterns = cp(src.IdentifyingFeatures.StringPatterns)
+	if src.IdentifyingFeatures.ControlFlow != nil {
+		cf := *src.IdentifyingFeatures.ControlFlow
+		dst.IdentifyingFeatures.ControlFlow = &cf
+	}
+	dst.Metadata.References = cp(src.Metadata.References)
 	return &dst
 }
 
